@@ -1,12 +1,12 @@
 """C17 (crash points) is assembled from the Conn part and, later, the Transport/Reader/Writer parts."""
-from engines import conn, writer, transport
+from engines import conn, writer, transport, reader
 
 PROPS = {"C17": "fault_enumeration"}
 
 
 def run(ctx):
     import os
-    keep = ["conn.go", "writer.go"]
+    keep = ["conn.go", "writer.go", "reader.go"]
     if os.path.exists(os.path.join(os.path.dirname(__file__), "transport.py")):
         keep.append("transport.go")
     ctx.vh_keep = keep
@@ -17,6 +17,9 @@ def run(ctx):
     w.pop("divergences_full", None)
     cov["writer_continuation"] = w
     cov["traces_validated_against_impl"] = (cov.get("traces_validated_against_impl") or 0) + w["traces_validated_against_impl"]
+    # Reader: fetch responses cut at record / header / payload positions, then continued on a new connection
+    cov["reader_continuation"] = reader.cut_part(ctx)
+    cov["traces_validated_against_impl"] += cov["reader_continuation"]["traces_monitored"]
     # every response type read through the Transport, cut at every byte
     t = transport.run_part(ctx, "C17")
     cov["transport"] = {k: t.get(k) for k in t if k not in ("samples", "frames")}
